@@ -6,6 +6,13 @@
 #include "json.h"
 #include <vector>
 
+#ifdef PSTLAB_ORATIO_VERIF
+namespace oratio_verif
+{
+  struct access;
+}
+#endif
+
 namespace smt
 {
   class lra_theory;
@@ -25,6 +32,9 @@ namespace smt
   {
     friend class lra_theory;
     friend class row;
+#ifdef PSTLAB_ORATIO_VERIF
+    friend struct ::oratio_verif::access;
+#endif
 
   public:
     assertion(lra_theory &th, const op o, const lit b, const var x, const inf_rational &v);
@@ -51,6 +61,9 @@ namespace smt
   class row final
   {
     friend class lra_theory;
+#ifdef PSTLAB_ORATIO_VERIF
+    friend struct ::oratio_verif::access;
+#endif
 
   public:
     row(lra_theory &th, const var x, lin l);
